@@ -12,10 +12,12 @@ From CSL Require Import Base.Prelude Cbor.Head.
 Local Open Scope N_scope.
 
 Inductive presence := Req | Opt | OptNE.   (* required / optional / optional, absent when empty *)
-(* order of the entries of a map on the wire: insertion order (LinkedHashMap / Vec; keys distinct),
-   bytewise order of the encoded keys (BTreeMap with a derived Ord that agrees with it), or the derived
-   order of RewardAddress (network id, then key-before-script, then hash) *)
-Inductive key_order := KInsertion | KBytewise | KRewardAddr.
+(* order of the entries of a map on the wire: insertion order with distinct keys (LinkedHashMap),
+   bytewise order of the encoded keys (BTreeMap with a derived Ord that agrees with it), the derived
+   order of RewardAddress (network id, then key-before-script, then hash), or insertion order with
+   REPEATED keys allowed (Vec of pairs: Mint, Redeemers in map form, PlutusMap with several values
+   under one key) *)
+Inductive key_order := KInsertion | KBytewise | KRewardAddr | KMulti.
 
 Inductive schema :=
 | SUint (lim : N)                  (* unsigned integer < lim (lim <= 2^64) *)
@@ -37,6 +39,8 @@ Inductive schema :=
 | SArrAny (s : schema)             (* array of s, definite (VAlt 0) or indefinite with break (VAlt 1): PlutusList *)
 | SBBytes                          (* bounded bytes: definite when <= 64 bytes, else indefinite with 64-byte chunks *)
 | SNamed (id : N) (s : schema)     (* s, with a name the generator and the domain refinement can refer to *)
+| SArrOpt (fs : slist) (o : schema) (* [f1, ..., fn] (VAlt 0 (VList l)) or [f1, ..., fn, o] (VAlt 1 (VList (x :: l)), x the
+                                      trailing item): the legacy transaction output with its optional data hash *)
 with slist := SNil | SCons (s : schema) (r : slist)
 with klist := KNil | KCons (key : N) (p : presence) (s : schema) (r : klist)
 with vlist := ANil | ACons (idx : N) (fs : slist) (r : vlist)
@@ -66,6 +70,7 @@ Fixpoint first_major (s : schema) : option N :=
   | SMapOf _ _ _ _ => Some 5 | SNullable _ => None | STag _ _ => Some 6 | SInBytes _ => Some 2
   | SChoice _ => None | STagChoice _ => Some 6 | SArrAny _ => Some 4 | SBBytes => Some 2
   | SNamed _ s' => first_major s'
+  | SArrOpt _ _ => Some 4
   end.
 
 (* can an encoding start with a byte of major type 7 (so that it could be mistaken for a break)? *)
@@ -131,6 +136,8 @@ Fixpoint enc (s : schema) (v : val) {struct s} : bytes :=
       if N.of_nat (length b) <=? 64 then encode_head 2 (N.of_nat (length b)) ++ b
       else 95 :: concat (map enc_chunk (chunk64 (length b) b)) ++ [255]
   | SNamed _ s', v' => enc s' v'
+  | SArrOpt fs o, VAlt O (VList l) => encode_head 4 (slen fs) ++ enc_sl fs l
+  | SArrOpt fs o, VAlt (S O) (VList (x :: l)) => encode_head 4 (1 + slen fs) ++ enc_sl fs l ++ enc o x
   | _, _ => []
   end
 with enc_sl (fs : slist) (l : list val) {struct fs} : bytes :=
@@ -203,6 +210,7 @@ Fixpoint wfs (s : schema) : bool :=
   | SArrAny s' => wfs s' && negb (may_start7 s')
   | SBBytes => true
   | SNamed _ s' => wfs s'
+  | SArrOpt fs o => wfs_sl fs && wfs o && (1 + slen fs <? two64)
   end
 with wfs_sl (fs : slist) : bool :=
   match fs with SNil => true | SCons s r => wfs s && wfs_sl r end
@@ -266,6 +274,7 @@ Fixpoint wfv (s : schema) (v : val) {struct s} : bool :=
        | KInsertion => nodupb (map (fun kv => enc k (fst kv)) l)
        | KBytewise => sortedb (map (fun kv => enc k (fst kv)) l)
        | KRewardAddr => sortedb (map (fun kv => reward_sort_key (enc k (fst kv))) l)
+       | KMulti => true
        end)
   | SNullable s', VNull => true
   | SNullable s', v' => wfv s' v'
@@ -277,6 +286,8 @@ Fixpoint wfv (s : schema) (v : val) {struct s} : bool :=
   | SArrAny s', VAlt (S O) (VList l) => forallb (wfv s') l
   | SBBytes, VBytes b => bytes_okb b
   | SNamed _ s', v' => wfv s' v'
+  | SArrOpt fs o, VAlt O (VList l) => wfv_sl fs l
+  | SArrOpt fs o, VAlt (S O) (VList (x :: l)) => wfv_sl fs l && wfv o x
   | _, _ => false
   end
 with wfv_sl (fs : slist) (l : list val) {struct fs} : bool :=
@@ -430,6 +441,12 @@ Fixpoint dec (s : schema) {struct s} : parser val :=
       | None => Err
       end
   | SNamed _ s' => dec s'
+  | SArrOpt fs o => fun bs =>
+      let* '(n, r) := dec_head_m 4 bs in
+      if n =? slen fs then let* '(l, r') := dec_sl fs r in Ok (VAlt 0 (VList l), r')
+      else if n =? 1 + slen fs then
+        let* '(l, r1) := dec_sl fs r in let* '(x, r2) := dec o r1 in Ok (VAlt 1 (VList (x :: l)), r2)
+      else Err
   end
 with dec_sl (fs : slist) {struct fs} : parser (list val) :=
   match fs with
@@ -494,6 +511,8 @@ Fixpoint refined (r : N -> val -> bool) (s : schema) (v : val) {struct s} : bool
   | STagChoice alts, VAlt i v' => refined_cl r alts i v'
   | SArrAny s', VAlt _ (VList l) => forallb (refined r s') l
   | SNamed id s', v' => r id v' && refined r s' v'
+  | SArrOpt fs o, VAlt O (VList l) => refined_sl r fs l
+  | SArrOpt fs o, VAlt (S O) (VList (x :: l)) => refined_sl r fs l && refined r o x
   | _, _ => true
   end
 with refined_sl (r : N -> val -> bool) (fs : slist) (l : list val) {struct fs} : bool :=
